@@ -43,6 +43,7 @@ import GraphiqModel.Proofs.LC
 import GraphiqModel.Proofs.LCSeqTerm
 import GraphiqModel.Proofs.LCRepair
 import GraphiqModel.Proofs.LCAssemble
+import GraphiqModel.Proofs.LCTotalR
 namespace Graphiq.C09
 open Graphiq Graphiq.LC Graphiq.PRow Graphiq.Tab
 
@@ -746,5 +747,65 @@ set_option maxRecDepth 100000 in
     on every qubit … which maps `|2K₂⟩` to itself (`H ⊗ H` fixes the two-qubit graph state) -/
 theorem lc_check_2K2_repaired : checkAnswerR twoK2 twoK2 = some (true, [("H", 0), ("H", 1), ("H", 2), ("H", 3)]) := by
   decide +kernel
+
+/-! ## 6. Totality: `is_lc_equivalent` returns (no internal assertion can fire)
+
+  Every decision theorem above has a hypothesis `… = .ok out` ("the function returned").  It is discharged here for every
+  input of the property's quantifier (helper lemmas: Proofs/LCTotal{Ech,Cols,Inv,Basis,R}.lean, Proofs/LCTotal.lean). -/
+
+/-- **the whole-graph algorithm (`is_lc_equivalent` before the repair of D14, `_is_lc_equivalent_component` after it) is
+    total**: for two adjacency matrices of the same size `n ≥ 1`, in deterministic or random mode and for every value of the
+    random draws, it returns.  None of its three assertions can fire: the non-zero rows of `row_reduction`'s output are exactly
+    the `rank` pivot rows (echelon form, proved by loop invariants); `_col_finder` returns exactly the `4n − rank` non-pivot
+    columns; the pivot-column matrix is upper unitriangular, so the exact GF(2) inverse exists and is two-sided; and every
+    vector spliced together by `_solution_basis_finder` has `4n` entries and solves the reduced system (`A(A⁻¹b) + b = 0`).
+    The rank is at least 1 because equation `(0, 0)` has the coefficient 1 at `b_0`. -/
+theorem is_lc_equivalent_component_total (a b : BMat) (mode : Mode) (draws : List Bool) (hn : 0 < a.r) (hab : a.r = b.r)
+    (hmode : mode ≠ .other) : ∃ out, isLcEquivalent a b mode draws = .ok out :=
+  isLcEquivalent_total a b mode draws hn hab hmode
+
+/-- **the repaired `is_lc_equivalent` is total** on simple graphs of equal size (every component is non-empty, so the theorem
+    above applies to every induced pair) -/
+theorem is_lc_equivalent_total (a b : BMat) (mode : Mode) (draws : List (List Bool)) (hab : a.r = b.r)
+    (ha : Simple a.r a.f) (hmode : mode ≠ .other) : ∃ out, isLcEquivalentR a b mode draws = .ok out :=
+  isLcEquivalentR_total a b mode draws hab ha hmode
+
+/-- hence **the repaired function returns an answer and the answer is right, off the shortcut**: for simple graphs of equal size
+    `n ≥ 1`, both modes: it returns some `out`; a `yes` always means "same LC orbit"; and whenever no component was answered `no`
+    on the pair-sum / random path, `yes` ⇔ same orbit -/
+theorem is_lc_equivalent_returns_and_is_right_off_the_shortcut (a b : BMat) (mode : Mode) (draws : List (List Bool))
+    (hn : 0 < a.r) (hab : a.r = b.r) (ha : Simple a.r a.f) (hb : Simple b.r b.f) (hmode : mode ≠ .other) :
+    ∃ out, isLcEquivalentR a b mode draws = .ok out ∧ (out.sol.isSome = true → SameOrbit a.r a.f b.f) ∧
+      ((∀ o ∈ out.parts, o.sol = none → o.path = "all-combinations" ∨ o.path = "full-rank") →
+        (out.sol.isSome = true ↔ SameOrbit a.r a.f b.f)) := by
+  obtain ⟨out, e⟩ := is_lc_equivalent_total a b mode draws hab ha hmode
+  refine ⟨out, e, fun hs => ?_, fun hp => decides_lc_equivalence_repaired_off_the_shortcut a b mode draws out hn hab ha hb e hp⟩
+  cases hq : out.sol with
+  | none => rw [hq] at hs; cases hs
+  | some q => exact repaired_yes_means_same_orbit a b mode draws out q hn hab ha hb e hq
+
+/-- and, in deterministic mode, **relative to the completeness of the pair-sum shortcut on connected graphs, the repaired
+    function returns and decides LC equivalence** — the property as worded, with the single remaining hypothesis -/
+theorem is_lc_equivalent_decides_partial (hshort : shortcut_complete_on_connected_statement) (a b : BMat)
+    (draws : List (List Bool)) (hn : 0 < a.r) (hab : a.r = b.r) (ha : Simple a.r a.f) (hb : Simple b.r b.f) :
+    ∃ out, isLcEquivalentR a b .det draws = .ok out ∧ (out.sol.isSome = true ↔ SameOrbit a.r a.f b.f) := by
+  obtain ⟨out, e⟩ := is_lc_equivalent_total a b .det draws hab ha (by decide)
+  exact ⟨out, e, decides_lc_equivalence_repaired_partial hshort a b draws out hn hab ha hb e⟩
+
+/-- `find_lc_operations` over the repaired function returns a correct sequence exactly when the graphs are LC-equivalent … on
+    every run off the shortcut (with fuel `n + 1` for the two loops of `lc_graph_operations`) -/
+theorem find_lc_operations_returns_iff_yes (a b : BMat) (mode : Mode) (draws : List (List Bool))
+    (hn : 0 < a.r) (hab : a.r = b.r) (ha : Simple a.r a.f) (hb : Simple b.r b.f) (hmode : mode ≠ .other) :
+    ∃ out, isLcEquivalentR a b mode draws = .ok out ∧
+      (out.sol.isSome = true ↔ ∃ seq, findLcOperationsR (a.r + 1) a b mode draws = .ok seq) := by
+  obtain ⟨out, e⟩ := is_lc_equivalent_total a b mode draws hab ha hmode
+  refine ⟨out, e, fun hs => ?_, fun ⟨seq, hseq⟩ => ?_⟩
+  · exact (find_lc_operations_correct_repaired (a.r + 1) a b mode draws hn hab ha hb).2 out e hs (Nat.le_refl _)
+  · unfold findLcOperationsR at hseq
+    rw [e] at hseq
+    dsimp only at hseq
+    cases hq : out.sol with
+    | none => rw [hq] at hseq; cases hseq
+    | some q => rfl
 
 end Graphiq.C09
